@@ -154,6 +154,14 @@ def _date(dt):
         return {'t': 'other', 'cls': 'datetime', 'repr': repr(dt)}
     secs = dt.hour * 3600 + dt.minute * 60 + dt.second
     fr = Fraction(secs, 86400)
+    if dt.microsecond:
+        # the time of day exactly, where the fraction fits the specification's 32-bit rationals; otherwise the
+        # microseconds ride along (compared exactly by checks that need it, ignored by the numeric comparison)
+        ex = Fraction(secs * 10 ** 6 + dt.microsecond, 86400 * 10 ** 6)
+        if ex.denominator < 2 ** 31:
+            fr = ex
+        else:
+            return {'t': 'date', 's': s, 'fn': fr.numerator, 'fd': fr.denominator, 'us': dt.microsecond}
     return {'t': 'date', 's': s, 'fn': fr.numerator, 'fd': fr.denominator}
 
 
